@@ -822,7 +822,29 @@ def _restore_approx(model, saved):
 
 # interventions used to DIAGNOSE a hidden-state discrepancy: the named piece of internal state is put back right
 # after the suspected query call; if the discrepancy disappears the mechanism is identified.
+def _relevances(model):
+    objs = list(model._problem_meta.get('relevance_cache', {}).values())
+    cur = model._problem_meta.get('relevance')
+    if cur is not None and all(cur is not o for o in objs):
+        objs.append(cur)
+    return objs
+
+
+def _save_relevance(model):
+    return [(r, dict(r._seed_vars), r._current_rel_varray, r._current_rel_sarray, r._active)
+            for r in _relevances(model)]
+
+
+def _restore_relevance(model, saved):
+    for r, seeds, va, sa, act in saved:
+        r._seed_vars = dict(seeds)
+        r._current_rel_varray = va
+        r._current_rel_sarray = sa
+        r._active = act
+
+
 MECHS = [('leftover-linear-vectors', ('lin',)),
+         ('leftover-relevance-state', ('lin', 'relev')),
          ('leftover-residual-vector', ('lin', 'resid')),
          ('broyden-jacobian-carried-over', ('lin', 'broyden')),
          ('approx-options-overwritten', ('lin', 'approx'))]
@@ -956,6 +978,8 @@ class HistoryRun:
             saved['approx'] = _save_approx(model)
         if 'resid' in interventions:
             saved['resid'] = model._residuals.asarray(copy=True)
+        if 'relev' in interventions:
+            saved['relev'] = _save_relevance(model)
         try:
             res = _query(prob, op, plan)
             self.count('obs:' + lab)
@@ -992,6 +1016,8 @@ class HistoryRun:
             _restore_approx(model, saved['approx'])
         if 'resid' in saved:
             model._residuals.set_val(saved['resid'])
+        if 'relev' in saved:
+            _restore_relevance(model, saved['relev'])
         if op.get('keep'):
             self.results[i] = copy.deepcopy(res)
         return stale
@@ -1109,10 +1135,11 @@ def run_case(case, acc):
                     # a query call of history A changed a vector (reported above): later differences follow from it
                     acc.count('obs:hidden-state-explained-by-vector-change')
                 else:
-                    culprit = _find_culprit(plan, keep, a_only, i0)
-                    viols.append(('hidden-state:%s:%s' % (culprit, lab0),
-                                  'result of step %d (%s) depends on query calls made before it (%s): %s' %
-                                  (i0, lab0, culprit, txt0)))
+                    mech, culprit = _find_culprit(plan, keep, a_only, i0)
+                    viols.append(('%shidden-state:%s:%s' % (mech + ':' if mech else '', culprit, lab0),
+                                  'result of step %d (%s) depends on query calls made before it (%s%s): %s' %
+                                  (i0, lab0, culprit, ', mechanism identified by intervention: ' + mech if mech
+                                   else '', txt0)))
         failed = len(fmon.failures)
     if failed:
         acc.count('obs:solver-failure-reported')
@@ -1139,7 +1166,7 @@ def run_case(case, acc):
 
 def _find_culprit(plan, keep, a_only, i0):
     """Which single query call (made only in history A, before step i0) reproduces the discrepancy at step i0, and
-    which intervention (MECHS) removes it?  -> '<mechanism>:<api>' | '<api>' | 'several-calls'"""
+    which intervention (MECHS) removes it?  -> (mechanism or '', api label or 'several-calls')"""
     cfg = plan['cfg']
     hist = plan['hist']
     cands = [j for j in a_only if j < i0]
@@ -1162,12 +1189,12 @@ def _find_culprit(plan, keep, a_only, i0):
                     continue
                 r2 = HistoryRun(plan).run(include=set(keep) | {j}, keep_across={j: what})
                 if differs(r2, ref, j) is False:
-                    return '%s:%s' % (name, _label(hist[j], cfg))
-            return _label(hist[j], cfg)
+                    return name, _label(hist[j], cfg)
+            return '', _label(hist[j], cfg)
     except HarnessError:
         raise
     except Exception:
         if os.environ.get('OMV_DEBUG'):
             import traceback
             traceback.print_exc()
-    return 'several-calls'
+    return '', 'several-calls'
